@@ -1,6 +1,5 @@
 package main
 
-func modeParse()                      {}
 func modeScalars()                    {}
 func modeChains(L, shard, shards int) {}
 func modeIter(n int, seed int64)      {}
